@@ -918,7 +918,7 @@ func tiePrereleaseRule(r *Report, p *Prog, rule string) {
 // sees Maven sets (matchVersion) drops the matches of every range written
 // after a higher one.
 var orderedExitReviewed = map[string]string{
-	"semver.canon": "the slice was sorted by lower bound a few lines above (sort.Slice in canon itself, C09.a), and Maven sets never reach the loop",
+	"semver.canon":            "the slice was sorted by lower bound a few lines above (sort.Slice in canon itself, C09.a), and Maven sets never reach the loop",
 	"(*semver.Set).Intersect": "and-lists exist only for the systems whose sets canon sorts; both operands come out of the constraint parser (Maven and NuGet ranges are parsed by setRange and never intersected). The residual case, operands built with the set syntax, is recorded in notes/baseline_findings/C09h",
 }
 
